@@ -199,7 +199,18 @@ def verify_function1(ex, c, prop, case):
     # vacuity: precondition satisfiable
     fres.obls.append(Obl(prop, c.qualname, 'vacuity.pre-satisfiable', 'entry', list(st.pc), z3.BoolVal(False),
                          'cover', inputs=inputs))
-    outs = ex.exec_block(node.body, st, fr)
+    body = node.body
+    if c.body_slice:
+        first, last = c.body_slice
+        srcs = [ex.src.source_of(c.file, s_) for s_ in body]
+        i0 = next((i for i, t in enumerate(srcs) if first in t), None)
+        i1 = next((i for i, t in enumerate(srcs) if last in t), None)
+        if i0 is None or i1 is None or i1 < i0:
+            raise Unsupported('slice of %s not found (%r .. %r)' % (c.qualname, first, last))
+        body = body[i0:i1 + 1]
+        fres.sliced = 'statements %d..%d of %d (lines %d-%d); the rest of the function is not covered' % (
+            i0, i1, len(srcs), body[0].lineno, body[-1].end_lineno)
+    outs = ex.exec_block(body, st, fr)
     fres.paths = len(outs)
     lemma_terms = []
     for k, v, s in outs:
